@@ -194,6 +194,7 @@ def replay_sequence(table: dict, seq: list[int], via: str, seed, tol: float) -> 
         sim = simulate_result(content, table["sim"], seed)
     else:
         sim = make_simulation(content, res, seed)
+    stored = snapshot(sim)
     for step, k in enumerate(seq):
         op = table["ops"][k - 1]
         style = (hash((seed, step, k)) & 0xFFFF) if seed is not None else 0
@@ -201,11 +202,32 @@ def replay_sequence(table: dict, seq: list[int], via: str, seed, tol: float) -> 
             obs = perform(sim, op, res, style)
         except Exception as e:  # noqa: BLE001
             return {"step": step, "op": op, "what": "exception", "exc": type(e).__name__, "message": str(e)[:200]}
+        changed = result_changed(sim, stored)
+        if changed:
+            return {"step": step, "op": op, "what": "the stored result was changed by a read", **changed}
         if obs is None:
             continue
         bad = compare(table["answers"][k - 1], obs, tol)
         if bad:
             return {"step": step, "op": op, **bad}
+    return None
+
+
+def snapshot(sim) -> dict:
+    """What the result holds (raw state frames, parameter snapshots): reading must never change it."""
+    return {"vars": [f.copy(deep=True) for f in sim.raw_variables],
+            "pars": [dict(p) for p in sim.raw_parameters]}
+
+
+def result_changed(sim, stored: dict) -> dict | None:
+    if len(sim.raw_variables) != len(stored["vars"]) or len(sim.raw_parameters) != len(stored["pars"]):
+        return {"detail": "number of segments"}
+    for i, (a, b) in enumerate(zip(sim.raw_variables, stored["vars"])):
+        if not a.equals(b):
+            return {"segment": i, "stored_before": b.to_dict("split"), "stored_now": a.to_dict("split")}
+    for i, (a, b) in enumerate(zip(sim.raw_parameters, stored["pars"])):
+        if dict(a) != b:
+            return {"segment": i, "parameters_before": b, "parameters_now": dict(a)}
     return None
 
 
@@ -257,6 +279,10 @@ class Recorder:
         self.nseg = nseg
         self.nrows = nrows
         self.events: list[dict] = []
+        self.stored = snapshot(sim)
+
+    def _rawsame(self) -> bool:
+        return result_changed(self.sim, self.stored) is None
 
     # -- what was asked, in the specification's vocabulary (API defaults applied) -------------------
     def _op(self, method: str, args: tuple, kw: dict) -> dict:
@@ -336,6 +362,7 @@ class Recorder:
             ev["ans"] = []
             ev["exc"] = type(e).__name__
             ev["message"] = str(e)[:200]
+        ev["rawsame"] = self._rawsame()
         self.events.append(ev)
         return ev
 
@@ -348,6 +375,7 @@ class Recorder:
             ev["ans"] = []
             ev["exc"] = type(e).__name__
             ev["message"] = str(e)[:200]
+        ev["rawsame"] = self._rawsame()
         self.events.append(ev)
         return ev
 
@@ -356,7 +384,7 @@ class Recorder:
         self.events.append({"op": {"view": "update", "flags": [], "v": par, "scaled": False, "concat": True,
                                    "norm": "none", "val": int(val), "fscalar": 1, "fseg": [1] * self.nseg,
                                    "frow": [1] * self.nrows},
-                            "ans": [], "exc": ""})
+                            "ans": [], "exc": "", "rawsame": self._rawsame()})
 
     @property
     def _seg_lens(self):
